@@ -6,6 +6,8 @@ import json, os, subprocess, sys
 V = os.path.dirname(os.path.dirname(os.path.abspath(__file__)))
 ENV = dict(os.environ, GOFLAGS="-mod=mod", GOPROXY="off", GOSUMDB="off", GOTOOLCHAIN="local")
 name, props = sys.argv[1], sys.argv[2:]
+if props == ["ALL"]:
+    props = ["C%02d" % i for i in range(1, 21)]
 diff = os.path.join(V, "seeded", "harmless", name + ".diff")
 assert not subprocess.run(["git", "-C", "/repo", "status", "--short"], stdout=subprocess.PIPE, text=True).stdout.strip(), "/repo not clean"
 subprocess.check_call(["git", "-C", "/repo", "apply", diff])
